@@ -138,6 +138,22 @@ CLAIMED = {
              "dask.compute call site; an effect analysis proves binning writes only to the fresh result. Numerical equality with block sums is not decided.",
         technique="affine-form abstract interpretation over ast, sibling agreement, dask.compute tuple-use rule, effect analysis",
         ref="5 C15"),
+    "C16": dict(
+        text="irfftn-shape rule (s=img.shape on the low-pass path); the Butterworth weight grid recipe (arange bounds, shift) is evaluated symbolically for "
+             "n=2k and n=2k+1 and must be FFT-ordered in both, with only the last axis truncated to n//2+1 for half spectra; the weight expression is "
+             "compared in rational normal form with 1/(1+q2**order), each axis term must be (k/(d*cutoff))**2 squared before the sum, and the weight may "
+             "depend on the image only through its shape (=> linear, unit DC gain, real and even => zero phase); the identity guard of the four low-pass "
+             "functions is compared in normal form; numpy/backend siblings and delegations must agree slot by slot. Numerical agreement is not decided.",
+        technique="parity-split symbolic evaluation and rational normal forms (abstract interpretation over ast), sibling-slot agreement, irfftn-shape rule",
+        ref="5 C16"),
+    "C17": dict(
+        text="The homogeneity/bilinear-form domain evaluates fourier_shell_correlation and recognises the per-shell Cauchy-Schwarz quotient with one "
+             "sum_labels reducer (range, value 1 on identical inputs, gain invariance), symmetry under swapping inputs; a layout rule requires spectra and "
+             "label grid in the same FFT layout; loader-level rules: both half-maps multiplied by the same mask, half-maps from average_split "
+             "(complementary masks, C09), seed/n_set forwarded unchanged, and a type-dispatch exhaustiveness rule proves every mask kind of the annotated "
+             "union reaches the product. Numerical values and shell occupancy are not decided.",
+        technique="homogeneity/bilinear normal forms by abstract interpretation, dispatch-exhaustiveness rule over annotated unions, same-source/slot rules",
+        ref="5 C17"),
 }
 
 NOT_APPLICABLE = {
